@@ -249,11 +249,12 @@ impl Pipe for RecPipe {
         hist::ev("pipe", 0, piece.key().k, piece.value().ver as u64);
         // keep the last disk-only piece: the "disk tier" may hand it back (what a hit in the write queue does)
         if piece.properties().phantom().unwrap_or(false) {
-            LAST_PHANTOM_PIECE.with(|p| {
-                if let Some(old) = p.borrow_mut().replace(std::mem::ManuallyDrop::new(piece)) {
-                    drop(std::mem::ManuallyDrop::into_inner(old));
-                }
-            });
+            // (the old piece is dropped after the cell has been released: user destructors may re-enter the cache
+            // and come back here)
+            let old = LAST_PHANTOM_PIECE.with(|p| p.borrow_mut().replace(std::mem::ManuallyDrop::new(piece)));
+            if let Some(old) = old {
+                drop(std::mem::ManuallyDrop::into_inner(old));
+            }
         }
     }
     fn flush(&self, pieces: Vec<Piece<MKey, MVal, SimProps>>) -> std::pin::Pin<Box<dyn Future<Output = ()> + Send>> {
